@@ -152,9 +152,9 @@ def r_usedeps(rng):
 
 def r_atom(rng, static_use=False):
     f = g2.random_atom(rng)
-    if f["cat"] == "dev-x":
+    if f["cat"] not in ("a", "b"):  # keep atoms inside the package universe of C07
         f["cat"] = "a"
-    if f["pkg"] == "p-q":
+    if f["pkg"] not in ("p", "q"):
         f["pkg"] = "p"
     if f.get("ver") is not None and rng.random() < 0.7:
         f["ver"] = rng.choice(VERS)
